@@ -47,6 +47,14 @@ def disableInf (cs : Consts K) (GT : Mat K n m) (h : Vec K m) : Mat K n m × Vec
   let off : Fin m → Bool := fun i => decide (cs.piqpInf < h[i]) || decide (h[i] < -cs.piqpInf)
   (Mat.ofFn fun j i => if off i then 0 else GT[j][i], Vector.ofFn fun i => if off i then 1 else h[i])
 
+/-- which rows `disable_inf_constraints` disables -/
+def infMask (cs : Consts K) (h : Vec K m) : Vector Bool m :=
+  Vector.ofFn fun i => decide (cs.piqpInf < h[i]) || decide (h[i] < -cs.piqpInf)
+
+/-- `redisable_inf_constraints`: zero the rows of a freshly assigned G that are disabled -/
+def rezeroRows (mask : Vector Bool m) (GT : Mat K n m) : Mat K n m :=
+  Mat.ofFn fun j i => if mask[i] then 0 else GT[j][i]
+
 /-- the descending swap loop of `restore_box_dual`: `for i = cnt-1 … 0: swap(v(i), v(idx(i)))` -/
 def swapLoop (idx : Vector (Fin n) n) : (k : Nat) → Vec K n → Vec K n
   | 0, v => v
